@@ -89,7 +89,23 @@ fn cell_val(idx: usize, bytes: [u8; 8]) -> i64 {
 
 pub fn record(k: u64) -> ClockErrorBound {
     let b = 1000 * k as i64;
-    let sec = if FAMILY.load(std::sync::atomic::Ordering::SeqCst) == 1 && k != 0 { BIG - b } else { b };
+    let fam = FAMILY.load(std::sync::atomic::Ordering::SeqCst);
+    if fam == 2 {
+        // `shmc`: the same as-of instant and the same bound in every publication (Machine.rec_of_c)
+        return ClockErrorBound::new(
+            libc::timespec { tv_sec: 7, tv_nsec: 8 },
+            libc::timespec { tv_sec: b + 2, tv_nsec: b + 3 },
+            9,
+            (b + 5) as u32,
+            0,
+            match k % 3 {
+                1 => ClockStatus::Synchronized,
+                2 => ClockStatus::FreeRunning,
+                _ => ClockStatus::Unknown,
+            },
+        );
+    }
+    let sec = if fam == 1 && k != 0 { BIG - b } else { b };
     ClockErrorBound::new(
         libc::timespec { tv_sec: sec, tv_nsec: b + 1 },
         libc::timespec { tv_sec: b + 2, tv_nsec: b + 3 },
